@@ -12,6 +12,8 @@ import pandapower.networks as pn
 from pandapower.control import ConstControl
 from pandapower.timeseries import DFData, OutputWriter, run_timeseries
 
+from pandapower.auxiliary import LoadflowNotConverged
+
 from .. import common, pf
 from ..gen import netgen
 
@@ -91,7 +93,7 @@ def corpus_net(g):
         if len(net[el]):
             net[el]["scaling"] = g.rng.uniform(0.6, 1.1, len(net[el]))
     if len(net.trafo) and g.B(0.5):
-        ok = net.trafo.tap_pos.notna()
+        ok = net.trafo.tap_pos.notna() & net.trafo.tap_min.notna() & net.trafo.tap_max.notna()
         net.trafo.loc[ok, "tap_pos"] = [g.I(int(a), int(b)) for a, b in zip(net.trafo.tap_min[ok], net.trafo.tap_max[ok])]
     if len(net.line) > 6 and g.B(0.3):
         net.line.at[net.line.index[g.I(0, len(net.line) - 1)], "in_service"] = False
@@ -103,7 +105,10 @@ def make_net(seed, g):
     if profile == "corpus":
         net, name = corpus_net(g)
         return net, "corpus:" + name
-    return netgen.rnd_net(seed, profile, {"oos": 0.06} if profile == "full_mix" else None), profile
+    ov = {"dcline": 0.06}   # every net with a dcline ends in the recycle_with_dcline finding; keep that share small
+    if profile == "full_mix":
+        ov["oos"] = 0.06
+    return netgen.rnd_net(seed, profile, ov), profile
 
 
 def gen_controls(net, g, steps):
@@ -298,7 +303,7 @@ def predicted_batch_failure(ctor):
 
 
 def compare(req, exp, ow, time_steps):
-    """returns list of (req_no, what, maxdev, detail), number of cells compared, varying"""
+    """returns list of (req_no, kind, maxdev, detail[, bad mask, recorded, expected]), number of cells compared, varying"""
     bad, cells, varying = [], 0, False
     for i, (t, v, idx, ek, en) in enumerate(req):
         name = "%s.%s" % (t, v)
@@ -329,8 +334,67 @@ def compare(req, exp, ow, time_steps):
             si, ci = np.argwhere(~ok)[0]
             bad.append((i, "value", float(np.nanmax(np.where(ok, 0, np.where(np.isnan(d), np.inf, d)))),
                         "%s%s: step %s column %s recorded %r, fresh power flow %r (%d of %d cells differ)" % (
-                            name, "[%s]" % en if ek else "", time_steps[si], labels[ci], got[si, ci], e[si, ci], int((~ok).sum()), e.size)))
+                            name, "[%s]" % en if ek else "", time_steps[si], labels[ci], float(got[si, ci]), float(e[si, ci]),
+                            int((~ok).sum()), e.size), ~ok, got, e))
     return bad, cells, varying
+
+
+def inactive_branches(net, el):
+    """mask over net[el]: branches that are not part of the power flow model although their buses may be energized"""
+    tab = net[el]
+    sides = {"line": ["from_bus", "to_bus"], "trafo": ["hv_bus", "lv_bus"], "trafo3w": ["hv_bus", "mv_bus", "lv_bus"]}[el]
+    m = ~tab.in_service.values.astype(bool)
+    for s_ in sides:
+        m |= ~net.bus.in_service.loc[tab[s_].values].values.astype(bool)
+    et = {"line": "l", "trafo": "t", "trafo3w": "t3"}[el]
+    sw = net.switch[(net.switch.et == et) & ~net.switch.closed]
+    if el == "line" and len(sw):
+        n_open = sw.groupby("element").bus.nunique()
+        m |= tab.index.isin(n_open.index[n_open >= 2])
+    return m
+
+
+def open_trafo_switch(net):
+    """an in-service trafo / trafo3w with an open switch: its auxiliary bus is lost when the recycled power flow rebuilds
+    the transformer rows (recycle['trafo'])"""
+    for et, el in (("t", "trafo"), ("t3", "trafo3w")):
+        sw = net.switch[(net.switch.et == et) & ~net.switch.closed]
+        if len(sw) and len(net[el]) and net[el].in_service.reindex(sw.element.values).fillna(False).any():
+            return True
+    return False
+
+
+def classify_values(bad, req, base, ctrls, time_steps, kw, ow, all_rec, rec_trafo, eligible):
+    if not all(b[1] == "value" for b in bad):
+        return None
+    line_ctrl = [c for c in ctrls if c["element"] == "line" and c["variable"] in LINE_EL_COLS]
+    if line_ctrl and all_rec:
+        # defect model: the recycled power flow never rebuilds the line part of the admittance matrix
+        st2, exp2 = manual_loop(base, ctrls, time_steps, kw, req, freeze_line=True)
+        if st2 == "ok" and not compare(req, exp2, ow, time_steps)[0]:
+            return "line_parameters_not_recycled"
+    if eligible:
+        # batch reader: branches that are not in the internal model get NaN, a power flow reports 0 for them
+        ok = True
+        for i, _, _, _, mask, got, e in bad:
+            t, v, idx, ek, en = req[i]
+            if t not in ("res_line", "res_trafo", "res_trafo3w") or ek:
+                return None
+            inact = inactive_branches(base, t[4:])
+            ok &= bool(np.isnan(got[mask]).all() and (e[mask] == 0).all() and inact[np.nonzero(mask)[1]].all())
+        if ok:
+            return "batch_read_nan_for_inactive_branch"
+    if all_rec and rec_trafo and open_trafo_switch(base) and all(not b[4][0].any() for b in bad):
+        return "recycle_trafo_open_switch"     # first step (full power flow) right, later steps wrong
+    return None
+
+
+def _tb_functions(exc):
+    names, tb = set(), exc.__traceback__
+    while tb is not None:
+        names.add(tb.tb_frame.f_code.co_name)
+        tb = tb.tb_next
+    return names
 
 
 def run_case(seed, tier, case_no):
@@ -411,8 +475,20 @@ def run_case(seed, tier, case_no):
         tags.add("ts_raised")
         mech = None
         pred = predicted_batch_failure(ctor) if eligible else None
-        if pred and type(exc).__name__ == pred[0] and exc.args and exc.args[0] == pred[1]:
+        frames = _tb_functions(exc)
+        if pred and type(exc).__name__ == pred[0] and exc.args and exc.args[0] == pred[1] and "get_batch_outputs" in frames:
             mech = pred[2]
+        elif (isinstance(exc, IndexError) and len(net.dcline) and all_rec and len(time_steps) > 1
+              and "_recycled_powerflow" in frames and frames & {"_build_gen_lookups", "_build_pp_gen"}
+              and "boolean index did not match" in str(exc)):
+            # the recycled power flow skips _add_auxiliary_elements: the cached in-service mask still counts the two
+            # auxiliary generators per dcline that _clean_up removed after the first step
+            mech = "recycle_with_dcline"
+        elif (all_rec and "recycle_trafo" in tags and open_trafo_switch(base) and "_recycled_powerflow" in frames
+              and (isinstance(exc, LoadflowNotConverged) or (isinstance(exc, IndexError) and "newtonpf" in frames))):
+            # the recycled power flow rewrites the transformer rows from the bus lookup: the auxiliary bus of the open switch
+            # becomes isolated (singular Jacobian or, if it is the last bus, an index error in newtonpf)
+            mech = "recycle_trafo_open_switch"
         viols.append(common.viol("run_timeseries raised %s(%s) although every step solves with a plain runpp; logged %s" % (
             type(exc).__name__, str(exc)[:80], [(r[0], r[1]) for r in req]), mechanism=mech, exception=type(exc).__name__, **wit))
         return common.case(digest, nontrivial=True, tags=tags, violations=viols, sample=sample, evals=1,
@@ -420,13 +496,8 @@ def run_case(seed, tier, case_no):
     tags.add("ts_returned")
     bad, cells, varying = compare(req, exp, ow, time_steps)
     if bad:
-        mech = None
-        line_ctrl = [c for c in ctrls if c["element"] == "line" and c["variable"] in LINE_EL_COLS]
-        if line_ctrl and all_rec and all(b[1] == "value" for b in bad):
-            # defect model: the recycled power flow never rebuilds the line part of the admittance matrix
-            st2, exp2 = manual_loop(base, ctrls, time_steps, {k: v for k, v in kw.items() if k != "recycle"}, req, freeze_line=True)
-            if st2 == "ok" and not compare(req, exp2, ow, time_steps)[0]:
-                mech = "line_parameters_not_recycled"
+        mech = classify_values(bad, req, base, ctrls, time_steps, {k: v for k, v in kw.items() if k != "recycle"}, ow, all_rec,
+                               "recycle_trafo" in tags, eligible)
         b = max(bad, key=lambda x: x[2])
         viols.append(common.viol("time series output differs from a fresh power flow of the same step: " + b[3], mechanism=mech,
                                  n_bad_outputs=len(bad), kinds=sorted({x[1] for x in bad}), others=[x[3] for x in bad[:4]], **wit))
